@@ -698,6 +698,7 @@ func emitHandshakeResults(run *Run, res []hsResult) {
 		"up":   {"up_case", "up_mismatches"},
 		"insp": {"insp_case", "insp_mismatches"},
 		"upd":  {"upd_case", "upd_mismatches tls_manager_cached"},
+		"sds":  {"sds_case", "sds_mismatches sds_update_always_installs"},
 	}
 	for _, h := range res {
 		if h.Kind == "skip" { // recorded in the distribution only
@@ -718,7 +719,7 @@ func emitHandshakeResults(run *Run, res []hsResult) {
 			run.Sum.Samples = append(run.Sum.Samples, h.Rep)
 		}
 	}
-	for _, k := range []string{"sel", "auth", "up", "insp", "upd"} {
+	for _, k := range []string{"sel", "auth", "up", "insp", "upd", "sds"} {
 		if shards[k] != nil {
 			shards[k].Close()
 		}
@@ -1212,6 +1213,8 @@ func runHandshakes(run *Run, right, other *authority, ls []*listenerUnderTest, v
 			}
 		}
 	}
+	// ---- B6: SDS providers over histories of secret pushes and config updates ----
+	out = append(out, runSDSHistories(run, right, other, ver, maxVer)...)
 	return out
 }
 
